@@ -21,7 +21,8 @@ PLAN = dict(
                     "the program is outside within_capacity_<backend> (so theorem codegen_total is confronted with the real code "
                     "generators). First failure wins: VIOL class=ill-typed-stage:<stage> | internal-failure:<stage> | "
                     "capture-under-binder (known finding: only when the syntactic detector fires, the first ill-typed stage is core "
-                    "and the failure is an occurrence resolved to a binder of another chirality/type). Theorems (no axioms): "
+                    "and the failure is an occurrence resolved to a binder of another chirality/type) | call-to-main-typing | "
+                    "main-non-integer-result (known findings, each with its closed-form detector). Theorems (no axioms): "
                     "codegen_total for the generic code generator and its x86-64 / AArch64 / RISC-V instances, linearization "
                     "preserves typing, wt_ax -> prog_ok, totality of focusing and shrinking on typed programs, the refutation of "
                     "unguarded fun2core typing preservation, and the composition with the three unproved typing links as hypotheses; "
@@ -29,7 +30,19 @@ PLAN = dict(
                     "fragment frag2t_prog of Sem/FsFrag2.v (identifiers with equal ids spelled alike, declared parameter/field types, globally "
                     "distinct binders): C12_shrink_preserves_typing_fragment2; the unguarded form, i.e. hypothesis H_shrink_wt, is REFUTED "
                     "(wt_fs ignores parameter types, wt_ax demands declared ones: C12_shrink_preserves_typing_refuted); C12_pipeline_wt_fragment2 "
-                    "is the composition with the shrink link discharged on the fragment",
+                    "is the composition with the shrink link discharged on the fragment; the other two links are proved as well: "
+                    "C12_fun2core_preserves_typing_fragment2 (prog_tyguard p -> compile_prog p = Ok c -> wt_core c; prog_tyguard = boolean typing "
+                    "of the annotated program in compiled types + NOT shadowing_risk + no call of main + main : i64; all term forms; key lemma: "
+                    "a lifted share_<f>_<n> is typed in its parameter list = core_lang's TypedFreeVars of its body), C12_fun2core_total_fragment2, "
+                    "C12_fun2core_pre_check (every fun2core output satisfies pre_check, no guard), C12_uniquify_preserves_typing, "
+                    "C12_focus_preserves_typing (wt_core + pre_check + xtor_tys_ok + names_le -> wt_fs + unique_binders + ids_bounded + gub), "
+                    "C12_focus_names_ok, C12_focus_decls_ok; H_focus_wt and H_fun2core_wt are REFUTED as they stand "
+                    "(C12_focus_preserves_typing_unguarded_refuted; C12_fun2core_main_result_refuted = new finding main-non-integer-result: "
+                    "a main of a non-integer type is accepted and its exit operand is ill-typed); C12_pipeline_wt_source composes everything "
+                    "from two boolean guards on the SOURCE program only (prog_tyguard, xtor_tys_guard). Per case the guards are evaluated (tags "
+                    "f2c-guard / f2c-noguard:<why>, pipe-guard / pipe-noguard:<which>); inside the guards a rejected real stage output is a "
+                    "violation class=ill-typed-stage:<stage>-inside-pipeline-guard (theorem confronted with the real code); names_ok is checked "
+                    "on every real focused program",
         assumptions=["the checkers Sem/CoreCheck.v, Sem/FsCheck.v, Sem/AxCheck.v, Model/LinCheck.v ARE the typing disciplines of "
                      "the intermediate languages (/repo has no type checker for Core or AxCut; they were written from the "
                      "invariants the passes and reference machines rely on)",
